@@ -34,9 +34,19 @@
                      node holds nothing of an abandoned fork (local chain, fetched block, pending or
                      in-flight head events) — it has long digested every reorg
    With both assumptions the cross-component properties P1-P4 hold and the node converges (P5a).
-   Without AssumeSlowL1 they do not (hypotheses G02-H1/H2, see Node_race_*.cfg): the pruner
-   trusts the NUMBER of the L1 head (never its hash) and the number carried by a possibly stale
-   head event. *)
+   Without AssumeSlowL1 they do not (Node_race_*.cfg, expected violations; both reproduced on the real
+   code by the scripts of checks/G02.py): the pruner trusts the NUMBER of the L1 head (never its hash)
+   and the number carried by a possibly stale head event.
+     G02-H1  the node is still on fork A when L1 announces a block of fork B below the local head:
+             onNewL1Head deletes fork-A blocks the pending reorg must revert; RevertHead then fails
+             (state update gone) and sync.revertTask repeats it for ever (stuck).
+     G02-H2  a new-head event of a block that was reverted since is handled after L1 moved above its
+             number (L1 ahead of the node): keep-from = stale number - Retained lies above the head;
+             the head block is deleted (the node recovers when it stores the next block).
+   FixHashChecks (FALSE = the code as it is) is a CANDIDATE repair examined at design level only:
+   both handlers skip when the block they anchor on is not the local chain's block at its height.
+   It closes the L1 path of H1 and H2 but not the catch-up path (a block of an abandoned fork is
+   stored while L1 is ahead: it IS the local block), Node_hashfix_stuck.cfg. *)
 EXTENDS Integers, Sequences, FiniteSets, TLC
 
 CONSTANTS
